@@ -101,6 +101,27 @@ fn run(kind: &str, input: &Value) -> Value {
                 _ => accepts(|| assert_grouped_kv_equal(groups(&input[1]), groups(&input[2]))),
             })
         }
+        // two slices of ONE buffer: in = [aid, v, i, j] -> assert(&v[..i], &v[..j])
+        "alias" => {
+            let aid = input[0].as_i64().unwrap();
+            let v = ints(&input[1]);
+            let (i, j) = (input[2].as_u64().unwrap() as usize, input[3].as_u64().unwrap() as usize);
+            if i > v.len() || j > v.len() {
+                return json!(["invalid"]);
+            }
+            Value::Bool(acc01(aid, &v[..i], &v[..j]))
+        }
+        // zero-sized elements (every Vec<()> shares one dangling pointer): in = [aid, n, m]
+        "zst" => {
+            let aid = input[0].as_i64().unwrap();
+            let a = vec![(); input[1].as_u64().unwrap() as usize];
+            let b = vec![(); input[2].as_u64().unwrap() as usize];
+            Value::Bool(if aid == 0 {
+                accepts(|| assert_collections_equal(&a, &b))
+            } else {
+                accepts(|| assert_collections_unordered_equal(&a, &b))
+            })
+        }
         _ => json!(["bad-kind"]),
     }
 }
@@ -138,6 +159,23 @@ fn generate(seed: u64, tier: Tier, em: &mut Emitter) {
         let nt = !a.is_empty();
         let ja: Vec<Value> = a.iter().map(|(k, vs)| json!([k, vs])).collect();
         em.case("rowg", json!([ja, gk, gv, gvlen, glen]), nt, &["exhaustive"]);
+    }
+
+    // 1b. slices of one buffer and zero-sized elements (an "identical buffer" shortcut must not
+    // skip the length check)
+    for aid in 0..2 {
+        for v in [vec![], vec![1], vec![1, 1], vec![1, 2, 1], vec![0, 1, 2, 0]] {
+            for i in 0..=v.len() {
+                for j in 0..=v.len() {
+                    em.case("alias", json!([aid, v, i, j]), i != j, &["alias"]);
+                }
+            }
+        }
+        for n in 0..4 {
+            for m in 0..4 {
+                em.case("zst", json!([aid, n, m]), n != m, &["zst"]);
+            }
+        }
     }
 
     // 2. random longer pairs: b is a (mostly) small mutation of a permutation of a
